@@ -40,7 +40,7 @@ def load_contracts():
     from pyvc import spec
     if not spec.REGISTRY:
         importlib.import_module('contracts.lib')
-        for f in sorted(glob.glob(os.path.join(VERIF, 'contracts', 'c*.py'))):
+        for f in sorted(glob.glob(os.path.join(VERIF, 'contracts', '[cz]*.py'))):
             importlib.import_module('contracts.' + os.path.basename(f)[:-3])
     return spec.REGISTRY
 
@@ -260,6 +260,10 @@ def main(argv=None):
                 k = matches_known(pid, r, ob, known)
                 if k is not None:
                     known_hits.append((k, r, ob))
+                    if is_b:
+                        bstat['obligations'] -= 1
+                    else:
+                        n_ob -= 1       # reported as a known finding, not as an obligation of the proof
                 else:
                     refuted.append((r, ob))
             else:
